@@ -28,7 +28,7 @@ def io_calls(fx, bodies):
     return out
 
 
-def exact_reads_only(ctx, bodies, rule):
+def exact_reads_only(ctx, bodies, rule, error_mapping_ok=False):
     """X1 / Y1: the input is touched only through exact-length reads, or read_to_end on a bounded/decoding wrapper"""
     fx = ctx.fx
     n = 0
@@ -45,6 +45,10 @@ def exact_reads_only(ctx, bodies, rule):
             ok, why = wrapped, 'read_to_end on %s' % (recv[1].split('::')[-2] + '::' + recv[1].split('::')[-1] if wrapped else 'the RAW input')
         elif name in WRAP:
             ok, why = True, 'wrapper construction'
+        elif error_mapping_ok and name in ('std::io::Error::kind', 'std::io::Error::raw_os_error') and \
+                'AsepriteParseError' in b.locals[0]['ty'] and 'Result' not in b.locals[0]['ty'] and 'Option' not in b.locals[0]['ty']:
+            # an error -> error conversion: whatever it looks at, a failed read stays a failure (which variant is C14's business)
+            ok, why = True, 'inspects the I/O error inside an error-to-error conversion (returns %s): cannot turn a failed read into success' % b.locals[0]['ty']
         elif name.startswith(FORBIDDEN_PREFIX) or name == 'std::io::Read::read':
             ok, why = False, 'forbidden: short reads / reader-dependent behaviour'
         else:
@@ -103,7 +107,7 @@ def outer_reader_calls(ctx, rule):
                 ctx.inst(rule, '%s -> %s' % (fn.split('::')[-1], k), k in allowed, '%s uses reader.%s() on the outer reader (%s)'
                          % (fn.split('::')[-1], k, 'exact' if k in allowed else 'NOT an exact-length primitive: tolerates a short tail'),
                          c.span, key=ctx.key(fn, rule, k, ''))
-    ctx.floor('outer-reader primitive calls', n, 30)
+    ctx.floor('outer-reader primitive calls', n, 22)
     return n
 
 
